@@ -49,6 +49,7 @@ MODELLED RATHER THAN VERIFIED (what the statements below do not cover):
   loops of the two k-shortest-paths algorithms are shown to end.
 -/
 import Compass.Gen.Decisions
+import Compass.Gen.Fns
 import Compass.Proofs.Num
 import Compass.Model.Ksp
 import Compass.Proofs.Ksp
@@ -1609,6 +1610,28 @@ theorem src_ksp_factor (f k n : Nat) :
     some ((KspTerm.factor f).terminate k n) =
       (ksp_exact.nat n k).bind fun a => (ksp_factor.nat (f * n) k).map fun b => a && b := by
   simp [KspTerm.terminate, ksp_exact, ksp_factor, Rel.nat]
+
+
+/-! ### Generated function bodies
+
+`tools/gen_fns.py` re-translates the body of the Rust function on every run into `Compass/Gen/Fns.lean`
+(`Gen.<Type>_<fn>`; conventions in the header of the tool).  Each `gen_*_eq` theorem below says that the
+generated definition *is* the hand-written model function the property theorems are about.  A source
+change to the function changes the generated definition and the proof stops checking (a body the
+translator no longer recognises is not emitted: the theorem no longer elaborates). -/
+
+/-- `k` is a `usize`: the hypothesis is the range of the type (`saturating_mul` is translated with its bound;
+the model multiplies in `Nat` — the two agree on every `k` a `usize` can hold) -/
+theorem gen_terminate_search_eq (t : KspTerm) (k n : Nat) (hk : k ≤ 18446744073709551615) :
+    Gen.KspTerminationCriteria_terminate_search t k n = t.terminate k n := by
+  cases t with
+  | exact => simp [Gen.KspTerminationCriteria_terminate_search, KspTerm.terminate, beq_eq_decide]
+  | maxIteration max => simp [Gen.KspTerminationCriteria_terminate_search, KspTerm.terminate, beq_eq_decide]
+  | factor f =>
+    simp only [Gen.KspTerminationCriteria_terminate_search, KspTerm.terminate, beq_eq_decide]
+    congr 1
+    simp only [ge_iff_le, decide_eq_decide, Nat.min_def]
+    split <;> omega
 
 end C13
 end Compass
